@@ -147,6 +147,10 @@ class PerDocumentWriter(object):
                 text = vmatcher.id()
                 weight = vmatcher.weight()
                 valuestring = vmatcher.value()
+                # Formats with no per-posting value (e.g. Existence) read back
+                # None instead of an empty byte string
+                if valuestring is None:
+                    valuestring = emptybytes
                 yield (text, weight, valuestring)
                 vmatcher.next()
         self.add_vector_items(fieldname, fieldobj, readitems())
